@@ -272,4 +272,25 @@ class AllTransitions(Sub):
         return True, "transition-probe"
 
 
-SUBS = [Convert(), Sources(), Timestamps(), AllTransitions()]
+class History(Sub):
+    """RuleBasedStateMachine: one value kept alive through conversions, arithmetic, copies and global switches (DESIGN 4.21)"""
+    name = "history_machine"
+    kind = "machine"
+    n = {"quick": 400, "thorough": 8000}          # machines (histories), summed over shards
+    shards = {"quick": 4, "thorough": 16}
+    steps = {"quick": 30, "thorough": 50}
+    rule = ("histories of up to 30 (thorough: 50) operations on one live value - convert (4 entry points, named and fixed zones), add/subtract fixed units, +/- timedelta, "
+            "calendar add, instance(twin), parse(iso), pickle/copy/deepcopy, week/locale switches, jump next to a transition - the oracle is checked after every step; "
+            "non-trivial: the history passes within a gap length of a transition; distinct by the full step list")
+
+    def machine(self, ctx, acc):
+        from vf.machine_dt import make_machine
+        return make_machine(acc)
+
+    def check(self, case, ctx):
+        from vf.machine_dt import replay
+        st_ = replay(case)
+        return st_.nontrivial, "history"
+
+
+SUBS = [Convert(), Sources(), Timestamps(), AllTransitions(), History()]
